@@ -53,6 +53,13 @@ def main():
                 b = r.below(a + 1)
                 order[a], order[b] = order[b], order[a]
             jobs.append(("multi-module", "verify", [files[j] for j in order]))
+    # structure / word literals in every member order, with constant and non-constant members, nested and as constants
+    import agggen
+    expected_status = {}
+    for i in range(3000 if thorough else 150):
+        src, status, how = agggen.struct_program(rng.fork("agg%d" % i))
+        expected_status[len(jobs)] = status
+        jobs.append(("aggregate-literal:" + how.split(":")[0], "run", [("m.pn", src)]))
     for i in range(600 if thorough else 60):
         jobs.append(("private-name-clash", "verify", faultgen.clash_modules(rng.fork("clash%d" % i))))
     for name, src in faultgen.corpus():
@@ -63,13 +70,15 @@ def main():
     reqs = ["alpha\t%s\t%s" % (mode, "\t".join(x for nm, s in u for x in (nm, esc(s)))) for _, mode, u in jobs]
     h = run_harness(reqs)
     accepted = agreeing = 0
-    for (tag, mode, u), rq, a in zip(jobs, reqs, h):
+    for ji, ((tag, mode, u), rq, a) in enumerate(zip(jobs, reqs, h)):
         hh, hd = kv(a)
         dist[tag + ":" + hh[:8]] += 1
         if hh != "ok":
             continue        # rejections and crashes are C02's business
         accepted += 1
         problems = []
+        if ji in expected_status and hd.get("status") != str(expected_status[ji]):
+            problems.append("the program exits with status %s, the members of its literals add up to %d" % (hd.get("status"), expected_status[ji]))
         if hd.get("verify") != "ok":
             problems.append("LLVM tools reject the IR: " + hd.get("verify", "?"))
         defs = dict(x.rsplit(":", 1) for x in hd.get("defs", "").split(",") if ":" in x)
@@ -114,7 +123,32 @@ def main():
                     # what LLVM's assembler objects to (the in-process verifier does not check constant struct initialisers
                     # against the member types, which is how these get through)
                     msg = re.sub(r"[0-9]+", "N", hd.get("verify", "")).split("error:_")[-1].rstrip("]")
-                    key = "c03:invalid-linked-ir:same-named-structure-in-two-modules:%s" % msg
+                    # second experiment: the known defect (F33) is that ONLY constant structure initialisers escape the
+                    # in-process verification of the linked module.  Give every literal of a shared structure non-constant
+                    # members: the program must then either produce valid IR or not be accepted (on the unchanged tree
+                    # LLVM's verifier stops it, F32).  If it is still accepted with invalid IR, instructions escape the
+                    # verification of the linked module too - that is not the known finding.
+                    nonconst = []
+                    for idx, (n2, s2) in enumerate(u):
+                        def deconst(mm, idx=idx):
+                            var, nm, inner = mm.group(1), mm.group(2), mm.group(3)
+                            if nm not in shared or nm not in decls[idx]:
+                                return mm.group(0)
+                            types = decls[idx][nm][1]
+                            fields = [f.strip().split(":") for f in inner.split(",") if ":" in f]
+                            if len(fields) != len(types):
+                                return mm.group(0)
+                            pre = "".join("\tvar nc_%s_%s: %s = %s;\n" % (var, f.strip(), t, v.strip()) for (f, v), t in zip(fields, types))
+                            return pre + "\tvar %s = %s { %s };" % (var, nm, ", ".join("%s: nc_%s_%s" % (f.strip(), var, f.strip()) for f, v in fields))
+                        nonconst.append((n2, re.sub(r"^\tvar (\w+) = (\w+) \{ ([^{}]*) \};$", deconst, s2, flags=re.M)))
+                    rq3 = "alpha\tverify\t" + "\t".join(x for n2, s2 in nonconst for x in (n2, esc(s2)))
+                    a3 = run_harness_serial([rq3])[0]
+                    if nonconst != list(u) and not (a3.startswith("ok") and kv(a3)[1].get("verify") != "ok"):
+                        key = "c03:invalid-linked-ir:same-named-structure-in-two-modules:%s" % msg
+                    else:
+                        key = "c03:invalid-linked-ir:same-named-structure-in-two-modules:not-only-constant-initialisers:%s" % msg
+                        problems.append("with non-constant members in every literal of the shared structure the program is still accepted with invalid linked IR: "
+                                        + a3[:200])
         if problems:
             rep.violation(key, {"why": problems[:5], "files": dict(u), "harness_request": rq, "implementation": a[:800],
                                              "note": "implementation-vs-oracle failure (LLVM's assembler/verifier or the symbol table), not a model disagreement"})
@@ -126,7 +160,7 @@ def main():
         "rule": "generated programs (valid; without main; for the wasm target; with run-time UB and a non-terminating loop; split "
                 "over 2-4 modules in random file order; module sets whose private structures, words, helpers and constants share "
                 "names), the valid corpus (tests/samples/valid, examples) and single-fault "
-                "mutants of it; every ACCEPTED input: llvm-as and opt -passes=verify accept every module's IR and the linked "
+                "mutants of it; programs around structure/word literals (every member order, constant / variable members, nested, as constants: IR valid and exit status = sum of the members); every ACCEPTED input: llvm-as and opt -passes=verify accept every module's IR and the linked "
                 "IR, every function defined in the sources is defined in the linked IR, main and pub functions have "
                 "external linkage",
         "traces_validated_against_impl": agreeing, "distribution": dict(dist), "samples": [reqs[0][:300]],
